@@ -276,9 +276,9 @@ class Acc(object):
     """One real accumulator for the Alias model: how to build it, the data payload of a fill, the keys it
     adds itself to the yielded context, the spec kind it follows, compute or request."""
 
-    def __init__(self, name, make, data, own=(), kind="plain", method="compute", snapshot=True):
+    def __init__(self, name, make, data, own=(), kind="plain", method="compute", snapshot=True, nres=1):
         self.name, self.make, self.data, self.own = name, make, data, set(own)
-        self.kind, self.method, self.snapshot = kind, method, snapshot
+        self.kind, self.method, self.snapshot, self.nres = kind, method, snapshot, nres
 
 
 def accumulators():
@@ -303,6 +303,45 @@ def accumulators():
         Acc("Count", lambda: lena.flow.Count(), lambda j: j, own=("count",), kind="count"),
         Acc("FillCompute(Sum)", lambda: lena.core.FillCompute(lena.math.Sum()), lambda j: 1),
         Acc("FillComputeSeq(Mean)", lambda: lena.core.FillComputeSeq(lena.math.Mean(pass_on_empty=True)), lambda j: 2),
+    ]
+    # several results per compute(): every result carries its own copy of the context (kind Plain2 of Alias.tla)
+    V = lena.variables.Variable
+    two_sums = lambda: lena.core.Split([lena.math.Sum(), lena.math.Sum()])
+    accs += [
+        Acc("SplitIntoBins(Split(Sum,Count))",
+            lambda: lena.structures.SplitIntoBins(lena.core.Split([lena.math.Sum(), lena.flow.Count()]),
+                                                  V("v", lambda d: d), [0, 1, 2]),
+            lambda j: j % 2, own=("variable", "count"), nres=2),
+        Acc("SplitIntoBins2d(Split(Sum,Count))",
+            lambda: lena.structures.SplitIntoBins(lena.core.Split([lena.math.Sum(), lena.flow.Count()]),
+                                                  V("v", lambda d: (d, d)), [[0, 1, 2], [0, 1, 2]]),
+            lambda j: j % 2, own=("variable", "count"), nres=2),
+        Acc("Split(Sum,Count)", lambda: lena.core.Split([lena.math.Sum(), lena.flow.Count()]),
+            lambda j: 1, own=("count",), nres=2),
+        Acc("Mean(Split(Sum,Sum))", lambda: lena.math.Mean(two_sums(), pass_on_empty=True), lambda j: 1, nres=2),
+        Acc("Vectorize(Mean(Split(Sum,Sum)))",
+            lambda: lena.math.Vectorize(lena.math.Mean(two_sums(), pass_on_empty=True), dim=2), lambda j: (1, 2), nres=2),
+        Acc("FillCompute(Split(Sum,Sum))", lambda: lena.core.FillCompute(two_sums()), lambda j: 1, nres=2),
+    ]
+    # identity facts only (number of results varies / what is yielded belongs to other properties)
+    accs += [
+        Acc("SplitIntoBins(Split(Sum,Mean,Count))",
+            lambda: lena.structures.SplitIntoBins(
+                lena.core.Split([lena.math.Sum(), lena.math.Mean(pass_on_empty=True), lena.flow.Count()]),
+                V("v", lambda d: d), [0, 1, 2]),
+            lambda j: j % 2, own=("variable",), snapshot=False),
+        Acc("Zip(Split(Sum,Sum),Split(Sum,Count))",
+            lambda: lena.flow.Zip([two_sums(), lena.core.Split([lena.math.Sum(), lena.flow.Count()])]),
+            lambda j: 1, snapshot=False),
+        Acc("FillRequest(Split(Sum,Sum))",
+            lambda: lena.core.FillRequest(two_sums(), reset=False, buffer_input=True),
+            lambda j: 1, method="request", snapshot=False),
+        Acc("FillRequest(SplitIntoBins(Split(Sum,Count)),bufsize=2)",
+            lambda: lena.core.FillRequest(
+                lena.structures.SplitIntoBins(lena.core.Split([lena.math.Sum(), lena.flow.Count()]),
+                                              V("v", lambda d: d), [0, 1, 2]),
+                reset=False, bufsize=2, buffer_input=True),
+            lambda j: j % 2, method="request", snapshot=False),
     ]
     # request()-type accumulators: what they yield is not modelled (C16), only the identity facts are used
     accs += [
@@ -381,6 +420,25 @@ class AliasRun(object):
         own = self.acc.own
         return ([drop(copy.deepcopy(v[1]), own) for v in self.src],
                 [drop(copy.deepcopy(c), own) for c in self.res])
+
+
+def yielded_contexts(item):
+    """The contexts one yielded item carries: its own, and - for a histogram whose bins hold the results
+    of inner accumulators (SplitIntoBins) - the contexts of the bin contents."""
+    out = []
+    if _has_context(item):
+        out.append(item[1])
+    data = item[0] if _has_context(item) else item
+    bins = getattr(data, "bins", None)
+    if isinstance(bins, list):
+        stack = [bins]
+        while stack:
+            x = stack.pop()
+            if isinstance(x, list):
+                stack.extend(reversed(x))
+            elif _has_context(x):
+                out.append(x[1])
+    return out
 
 
 def ctx_ids(c, keep):
